@@ -9,7 +9,7 @@ so that after the substitution of the outer macro's parameters (a) and (b) — o
 invocations of one outer macro, or of two levels of outer macros — are spelled alike: `step!(x, y)` at the call site and
 `step!($x, y)` in `macro two($x, $z) { step!($x, y), step!(y, $z) }` invoked as `two!(x, w)`.  The identically spelled
 invocations stand in one rule (either order, inside a disjunction) or in two rules of the program (either order); the designed
-input is a chain WITH BRANCHES, on which the call-site `y` (a successor of x) and the local `y` (the midpoint) take different
+input is a chain WITH BRANCHES (a second root, dead ends, a loop), on which the call-site `y` (a successor of x) and the local `y` (the midpoint) take different
 values, and the tie's sensitivity check (`leak`: the hand expansion in which the outer locals keep their spelling) holds.
 Any treatment of an invocation by the spelling of its arguments — an expansion cache keyed by the printed tokens, an
 interning of argument identifiers, a `first occurrence wins` table — makes an outer macro lose (or wrongly gain) a local.
@@ -251,9 +251,11 @@ def gen_memo_pattern(rng, inner, outer, rshape):
     else:
         raise ValueError(rshape)
     p = dict(rels=copy.deepcopy(G.RELS), macros=macros, rules=rules, head_macros=[])
-    # designed input: the chain 0 -> 1 -> .. -> 7 with branches (most keys have TWO successors, some of them dead ends: the
-    # call-site variable and the local of its spelling take different values), shortcuts, B = the even values, K = every value
-    designed = {A: [(k, k + 1) for k in range(7)] + [(0, 8), (2, 9), (8, 5), (3, 9)], Ao: [(0, 3), (2, 5), (1, 1), (8, 2)],
+    # designed input: the chain 0 -> 1 -> .. -> 6 with a second ROOT (7 -> 2), two dead ends (0 -> 8, 2 -> 9) and a loop (3 -> 3): the
+    # call-site variable and the outer local of its spelling take different values (a successor that leads nowhere, a predecessor
+    # that nothing leads to); Ao: part of the chain and shortcuts; B = the even values, K = every value
+    designed = {A: [(k, k + 1) for k in range(6)] + [(7, 2), (0, 8), (2, 9), (3, 3)],
+                Ao: [(k, k + 1) for k in range(5)] + [(0, 3), (2, 5), (1, 1), (8, 2)],
                 B: [(0,), (2,), (4,), (6,), (8,)], K: [(k,) for k in range(10)], "d0": [], "d1": [], "d2": []}
     info = dict(inner=inner, outer=outer, rule=rshape, second_outer=alt_kind)
     return p, designed, leak, info
